@@ -21,6 +21,17 @@ class Out(Config):
     x: Param[int] = 0
 
 
+class Bag(Config):
+    """A collection-like configuration: its truth value is False while `names` is empty, yet it may
+    hold a submitted task or be the output of one"""
+
+    names: Param[List[str]] = []
+    child: Param[Optional[Config]] = None
+
+    def __len__(self):
+        return len(self.names)
+
+
 class Pre(LightweightTask):
     """A lightweight task used as pre-task / init task; may embed submitted tasks"""
 
@@ -34,6 +45,7 @@ class Pre(LightweightTask):
 class VTask(Task):
     name: Param[str]
     child: Param[Optional[Config]] = None
+    bag: Param[Optional[Config]] = None
     items: Param[List[Config]] = []
     table: Param[Dict[str, Config]] = {}
 
@@ -46,6 +58,7 @@ class VTaskOut(Task):
 
     name: Param[str]
     child: Param[Optional[Config]] = None
+    bag: Param[Optional[Config]] = None
     items: Param[List[Config]] = []
     table: Param[Dict[str, Config]] = {}
 
@@ -56,4 +69,20 @@ class VTaskOut(Task):
         pass
 
 
-TASK_CLASSES = [VTask, VTaskOut]
+class VTaskBag(Task):
+    """A task whose output is a configuration that evaluates to False"""
+
+    name: Param[str]
+    child: Param[Optional[Config]] = None
+    bag: Param[Optional[Config]] = None
+    items: Param[List[Config]] = []
+    table: Param[Dict[str, Config]] = {}
+
+    def task_outputs(self, dep):
+        return dep(Bag(names=[]))
+
+    def execute(self):
+        pass
+
+
+TASK_CLASSES = [VTask, VTaskOut, VTaskBag]
